@@ -46,7 +46,10 @@ def structures(k, tag=''):
     r = Ref('r' + tag, 2, ['density', 'temp'], m2.ncell0, m2.boxes, layout=[families.random_layout(rnd, 3, 2), families.random_layout(rnd, 2, 2)], lo=[0.0, 1.0], dx0=[0.25, 0.5])
     cb = [tile((0, 0, 0), (3, 1, 1), [[2], [], []])]
     chk = RefChk('c' + tag, (4, 2, 2), cb, nsp=2, ghost=1, layouts={s: [families.random_layout(rnd, 2, 2)] for s in ('state', 'gradp', 'I_R', 'divU', 'p')})
-    return p, q, r, chk
+    # one level of six boxes in one file: with one worker Pool.map ships them in chunks of two
+    m6 = Mesh('3d6', 3, (6, 2, 2), [tile((0, 0, 0), (5, 1, 1), [[2, 4], [1], []])])
+    p6 = Ref('s' + tag, 3, ['density', 'a', 'volFrac'], m6.ncell0, m6.boxes, layout=[families.random_layout(rnd, 6, 2)], lo=[-0.5, 1.25, 2.0], dx0=[0.5, 0.25, 0.125])
+    return p, q, r, chk, p6
 
 
 def runners():
@@ -57,6 +60,7 @@ def runners():
     PC = lambda m: m['amr_kitchen.plotfile_cooker'].PlotfileCooker
     add('reader[:][lv][:]', lambda m: [PC(m)('plt')[:][lv][:] for lv in (0, 1)])
     add('reader[f][lv][list]', lambda m: [PC(m)('plt')['a'][0][[2, 0, 1]], PC(m)('plt')[[0, 2]][1][np.array([True, True])]])
+    add('reader[list][6 boxes]', lambda m: [PC(m)('plt6')[[1, 2]][0][:], PC(m)('plt6')[['a', 'volFrac']][0][[5, 0, 3, 1, 2, 4]], PC(m)('plt6')[1:][0][np.array([True] * 6)]])
     add('iterate', lambda m: [list(PC(m)('plt')[1:][lv]) for lv in (0, 1)], multiset=True)
     add('iter()', lambda m: list(PC(m)('plt')[0][0].iter(slice(None, None, -1))))
     add('iter(list)', lambda m: [list(PC(m)('plt')[1:][0].iter([2, 0, 1])), list(PC(m)('plt')['a'][1].iter(np.array([True, True])))])
@@ -126,9 +130,10 @@ def same(a, b, ctx):
 
 
 def execute(mods, S, runner, schedule, which='run'):
-    p, q, r, chk = S
+    p, q, r, chk, p6 = S
     fs = SymFS()
     p.write_symfs(fs, '/work/plt')
+    p6.write_symfs(fs, '/work/plt6')
     q.write_symfs(fs, '/work/plt2')
     r.write_symfs(fs, '/work/plt2d')
     chk.write_symfs(fs, '/work/chk00005')
@@ -208,6 +213,26 @@ def run_case(case):
             kind = 'raises' if ' raised ' in msg else ('return' if 'return value' in msg else ('tree' if 'output tree' in msg else 'side-condition'))
             sig = 'C12/%s/%s' % (runner['name'], kind)
             viol.setdefault(sig, {'signature': sig, 'what': msg[:400], 'index': case['index'], 'k': case['k'], 'schedule': ctx.data.get('schedule')})
+    # every number of workers: it reaches the code through Pool.map's chunking (tasks pickled together share objects)
+    for w in (1, 2):
+        def wpath(ctx, w=w):
+            obl = Obl(ctx)
+            outcome, snap, rec, fs = execute(mods, S, runner, pool.Schedule('identity', workers=w))
+            what = '%s with %d worker process%s' % (runner['name'], w, '' if w == 1 else 'es')
+            obl.holds(outcome[0] == 'returned', '%s raised %s' % (what, outcome[1:]))
+            if outcome[0] == 'returned':
+                obl.holds(same(outcome[1], base[0][1], ctx), '%s: the return value differs from the run with 16 workers' % what)
+                for o in runner['outputs']:
+                    diff = [k for k in set(snap[o]) | set(base[1][o]) if snap[o].get(k) != base[1][o].get(k)]
+                    obl.holds(not diff, '%s: output tree %s differs from the run with 16 workers in %s' % (what, o, sorted(diff)[:3]))
+            return obl
+        resultsw, exw, stw = core.explore(wpath, max_paths=8)
+        res.add_explore(resultsw, exw, stw)
+        for ctx, obl in resultsw:
+            res.add_obl(obl)
+            if obl.failed and not ctx.flags:
+                sig = 'C12/%s/worker-count' % runner['name']
+                viol.setdefault(sig, {'signature': sig, 'what': obl.failed[0][0][:400], 'index': case['index'], 'k': case['k'], 'schedule': {'workers': w}})
     if runner['serial'] is not None:
         def spath(ctx):
             obl = Obl(ctx)
@@ -261,9 +286,10 @@ def make_replay(v):
     import json
     from model import plotfile
     d = common.replay_dir('C12', v['signature'])
-    p, q, r, chk = structures(v['k'])
+    p, q, r, chk, p6 = structures(v['k'])
     fs = SymFS()
     p.write_symfs(fs, '/work/plt')
+    p6.write_symfs(fs, '/work/plt6')
     q.write_symfs(fs, '/work/plt2')
     r.write_symfs(fs, '/work/plt2d')
     chk.write_symfs(fs, '/work/chk00005')
@@ -294,6 +320,8 @@ def replay(d, case):
             mods[name] = importlib.import_module(name)
         except Exception:
             pass
+    if isinstance(case.get('schedule'), dict) and 'workers' in case['schedule']:
+        return replay_workers(d, case, runner, mods)
     real_pools = {multiprocessing.Pool}
     try:
         from pathos.multiprocessing import ProcessingPool
@@ -346,6 +374,73 @@ def replay(d, case):
     return False, 'identical results'
 
 
+def replay_workers(d, case, runner, mods):
+    """Real process pools: the tool with 16 workers and with the recorded number of workers (every `multiprocessing.Pool()`
+    the repository modules create gets that many processes) must agree."""
+    import contextlib
+    import hashlib
+    import io
+    import shutil
+    import types
+    import multiprocessing
+    real_Pool = multiprocessing.Pool
+
+    class MP:
+        def __init__(self, w):
+            self.w = w
+
+        def __getattr__(self, n):
+            return getattr(multiprocessing, n)
+
+        def Pool(self, *a, **k):
+            return real_Pool(self.w)
+
+    def one(tag, w):
+        wd = os.path.join(d, 'work_' + tag)
+        shutil.rmtree(wd, ignore_errors=True)
+        shutil.copytree(os.path.join(d, 'in'), wd)
+        os.chdir(wd)
+        mp = MP(w)
+        saved = []
+        for m in mods.values():
+            for k, val in list(m.__dict__.items()):
+                if isinstance(val, types.ModuleType) and val.__name__ == 'multiprocessing':
+                    saved.append((m, k, val))
+                    m.__dict__[k] = mp
+                elif val is real_Pool:
+                    saved.append((m, k, val))
+                    m.__dict__[k] = mp.Pool
+        try:
+            with contextlib.redirect_stdout(io.StringIO()), contextlib.redirect_stderr(io.StringIO()):
+                try:
+                    ret = runner['run'](mods)
+                    outcome = ('returned', canon_ret(ret, runner['multiset']))
+                except Exception as e:
+                    outcome = ('raised', type(e).__name__)
+        finally:
+            for m, k, val in saved:
+                m.__dict__[k] = val
+        h = hashlib.sha1()
+        for o in runner['outputs']:
+            for root, ds, fs_ in sorted(os.walk(o)) if os.path.isdir(o) else [('.', [], [o])]:
+                ds.sort()
+                for f in sorted(fs_):
+                    pth = os.path.join(root, f)
+                    if os.path.exists(pth):
+                        h.update(pth.encode())
+                        h.update(open(pth, 'rb').read())
+        return outcome, h.hexdigest()
+    base = one('w16', 16)
+    other = one('w%d' % case['schedule']['workers'], case['schedule']['workers'])
+    if other[0][0] == 'raised' and base[0][0] != 'raised':
+        return True, 'raises %s with %d worker(s)' % (other[0][1], case['schedule']['workers'])
+    if repr(other[0]) != repr(base[0]):
+        return True, 'the return value with %d worker(s) differs from the one with 16 workers' % case['schedule']['workers']
+    if other[1] != base[1]:
+        return True, 'the output tree with %d worker(s) differs from the one with 16 workers' % case['schedule']['workers']
+    return False, 'identical results'
+
+
 def mods_ctx(m):
     return m
 
@@ -359,7 +454,7 @@ def validate_real(rep):
     import tempfile
     from harness import replay_lib
     from model import plotfile
-    p, q, r, chk = structures(0)
+    p, q, r, chk, p6 = structures(0)
     top = tempfile.mkdtemp(prefix='c12real_', dir='/dev/shm' if os.path.isdir('/dev/shm') else None)
     try:
         fs = SymFS()
